@@ -87,14 +87,18 @@ def diagnose (I : InstIn) (σ : Ty.TMap) : List Ty → List Json
       match σ.get p with
       | none => [Json.mkObj [("param", Json.str (Ty.tparamStr p)), ("fails", Json.str "no-argument")]]
       | some a =>
-        let noPrim := !a.isPrim && !a.isTCon && !(argCore a).isPrim && !(argCore a).isTCon
-        let bnd := match Ty.boundOf p with | none => true | some b => withinD I.top a (Ty.substituteType b σ)
+        let req := requestedBy I p a
+        let noPrim := req || (!a.isPrim && !a.isTCon && !(argCore a).isPrim && !(argCore a).isTCon)
+        let bnd := req || (match Ty.boundOf p with | none => true | some b => withinD I.top a (Ty.substituteType b σ))
         let kept := match I.pre.get p with
           | none => true
           | some t => overridable I p || Ty.beq a t ||
               (match a with | .wild v (some x) => Ty.beq x t && !t.isWild && projAllowed I p ps v | _ => false)
         let proj := match a with
-          | .wild v bd => (match I.pre.get p with | some t => Ty.beq a t | none => false) || (bd.isSome && projAllowed I p ps v)
+          | .wild v bd => (match I.pre.get p with
+              | some t => Ty.beq a t
+              | none => (requestsBelow I p).any fun t => Ty.beq a t) ||
+              (bd.isSome && projAllowed I p ps v)
           | _ => true
         let fails := (if noPrim then [] else ["primitive-or-bare-constructor"]) ++ (if bnd then [] else ["outside-bound"]) ++
           (if kept then [] else ["requested-assignment-not-kept"]) ++ (if proj then [] else ["projection-not-permitted"])
